@@ -908,6 +908,90 @@ Example rpe_ratio_example_F :
 Proof. vm_compute. reflexivity. Qed.
 End FloatExamples.
 
+(* ========================================================================================== *)
+(* 6. a Result handed out before change_unit is not touched by it (heap model, any number system) *)
+(* ========================================================================================== *)
+Section HeapProofs.
+Context {T : Type} {ops : NumOps T}.
+
+Lemma hread_alloc_old (h : @heap T) x a : (a < length h)%nat -> hread (fst (halloc h x)) a = hread h a.
+Proof. intros H. unfold hread, halloc. cbn [fst]. apply app_nth1. exact H. Qed.
+Lemma hread_alloc_new (h : @heap T) x : hread (fst (halloc h x)) (snd (halloc h x)) = x.
+Proof. unfold hread, halloc. cbn [fst snd]. rewrite app_nth2 by lia. rewrite Nat.sub_diag. reflexivity. Qed.
+
+(* the current code (rebinding): whatever Results exist, they keep their values and stay consistent;
+   the metric afterwards holds exactly the values the functional model computes *)
+Theorem change_unit_keeps_earlier_results (p : T) (h : @heap T) (m : hmetric) (v : Unit) (r : hresult) :
+  (fst m < length h)%nat -> (res_addr r < length h)%nat -> result_consistent h r ->
+  let '(st, (h', m')) := change_unit_h false p h m v in
+  hread h' (res_addr r) = hread h (res_addr r) /\ result_consistent h' r /\
+  st = fst (change_unit p (hread h (fst m)) (snd m) v) /\
+  hread h' (fst m') = fst (snd (change_unit p (hread h (fst m)) (snd m) v)) /\
+  snd m' = snd (snd (change_unit p (hread h (fst m)) (snd m) v)) /\
+  result_consistent h' (get_result_h h' m').
+Proof.
+  intros Hm Hr Hc. unfold change_unit_h. cbn [andb].
+  destruct (change_unit p (hread h (fst m)) (snd m) v) as [st [e' u']] eqn:E.
+  destruct st as [|rf].
+  - destruct (unit_eqb_spec (snd m) v) as [Euv|Ne].
+    + (* same unit: nothing happens *)
+      assert (E2 : (e', u') = (hread h (fst m), snd m)).
+      { unfold change_unit in E. rewrite <- Euv in E.
+        replace (unit_eqb (snd m) (snd m)) with true in E by (destruct (snd m); reflexivity).
+        inversion E; reflexivity. }
+      inversion E2; subst e' u'. cbn [fst snd]. repeat split; try assumption; reflexivity.
+    + cbn [halloc]. cbn [fst snd].
+      assert (R1 : forall a, (a < length h)%nat -> hread (h ++ [e']) a = hread h a)
+        by (intros a Ha; apply (hread_alloc_old h e' a Ha)).
+      assert (R2 : hread (h ++ [e']) (length h) = e') by apply (hread_alloc_new h e').
+      split; [apply R1; exact Hr|]. split; [unfold result_consistent in *; rewrite R1 by exact Hr; exact Hc|].
+      split; [reflexivity|]. split; [exact R2|]. split; [reflexivity|]. reflexivity.
+  - (* refused: neither heap nor metric change *)
+    assert (E2 : (e', u') = (hread h (fst m), snd m)).
+    { clear - E. unfold change_unit in E.
+      repeat match type of E with context [if ?c then _ else _] => destruct c end; inversion E; reflexivity. }
+    inversion E2; subst e' u'. cbn [fst snd]. repeat split; try assumption; reflexivity.
+Qed.
+
+(* the scenario r1 = get_result(); change_unit(v); r2 = get_result() on a fresh metric *)
+Theorem alias_scenario_spec (p : T) (e : list T) (u v : Unit) :
+  let '(st, s1, e1, u1, e2, u2, s2) := alias_scenario false p e u v in
+  s1 = all_statistics e /\ e1 = e /\ u1 = u /\
+  (st, (e2, u2)) = change_unit p e u v /\ s2 = all_statistics e2.
+Proof.
+  unfold alias_scenario.
+  pose proof (change_unit_keeps_earlier_results p [e] (0%nat, u) v (get_result_h [e] (0%nat, u))) as H.
+  cbn [fst snd length res_addr get_result_h] in H.
+  specialize (H ltac:(lia) ltac:(lia) eq_refl).
+  destruct (change_unit_h false p [e] (0%nat, u) v) as [st [h1 m1]].
+  destruct H as [H1 [H2 [H3 [H4 [H5 H6]]]]].
+  cbn [res_stats res_addr res_unit get_result_h fst snd] in *.
+  change (hread [e] 0) with e in *.
+  split; [reflexivity|]. split; [exact H1|]. split; [reflexivity|]. split.
+  - destruct (change_unit p e u v) as [st' [e' u']]. cbn [fst snd] in *. subst. reflexivity.
+  - reflexivity.
+Qed.
+End HeapProofs.
+
+(* regression witness (binary64): with the earlier in-place scaling the Result taken before
+   m -> mm is rescaled behind its back (its stored sse is 5, its array now has sse 5000000);
+   with the current code it keeps sse 5 *)
+Module AliasWitness.
+Import PrimFloat.
+Local Open Scope float_scope.
+Definition w_vals : list float := [1; 2].
+Definition sse_of_stats (s : float * float * float * float * float * float * float) : float := snd s.
+Definition stored_and_actual_sse (inplace : bool) : float * float :=
+  let '(_, s1, e1, _, _, _, _) := alias_scenario inplace pi_float w_vals U_meters U_millimeters in
+  (sse_of_stats s1, sse e1).
+Definition five : float := 5.
+Definition five_million : float := 5000000.
+Example old_code_rescaled_earlier_result : stored_and_actual_sse true = (five, five_million).
+Proof. vm_compute. reflexivity. Qed.
+Example new_code_keeps_earlier_result : stored_and_actual_sse false = (five, five).
+Proof. vm_compute. reflexivity. Qed.
+End AliasWitness.
+
 (* ---------- summaries used by the property file ---------- *)
 Theorem change_unit_factors :
   (forall u, factorR u u = 1) /\
